@@ -540,6 +540,9 @@ func readMessage(tr *tokenReader) (Message, error) {
 			if err != nil {
 				return msg, readError(tr.nextToken, err.Error())
 			}
+			if fdInteger == 0 {
+				return msg, readError(tr.nextToken, "message field index 0 is reserved for the end of the message")
+			}
 			if _, ok := msg.Fields[uint8(fdInteger)]; ok {
 				return msg, readError(tr.nextToken, "message has duplicate field index %d", fdInteger)
 			}
